@@ -213,6 +213,28 @@ def addr(job):
     return 'ok %s %s %s %s' % (names, vlib.hexs(er7), rd, dl)
 
 
+def del_absent(job):
+    """(version, kind, parent, spelling, ...): delete through a valid spelling on a parent that does NOT hold the child (yet / any more)"""
+    v, kind, parent, x = job[:4]
+    out = []
+    try:
+        a = _mk(kind, parent, v)
+    except Exception as e:  # noqa
+        return 'mkexc ' + vlib.exc_name(e)
+    for rnd in range(2):
+        try:
+            delattr(a, x)
+            r = 'deleted'
+        except Exception as e:  # noqa
+            r = vlib.exc_name(e)
+        out.append(r + ('+children' if len(a.children) else ''))
+        try:
+            a.to_er7()
+        except Exception as e:  # noqa
+            out.append('encexc:' + vlib.exc_name(e))
+    return ' '.join(out)
+
+
 def addr_neg(job):
     """(version, kind, parent, name): get / set / delete through a name that designates no child"""
     v, kind, parent, x = job
